@@ -220,6 +220,31 @@ def codec_checks(chk, rnd, tier):
         if o.get("r") != "error":
             chk.add_violation("unknown-name-not-an-error", {"impl": o})
             return
+    # ... and so is every NEAR MISS of a known name: a letter replaced by a look-alike or a Unicode case-folding partner
+    # (U+017F long s, U+212A Kelvin sign, full-width letters), white space or NUL around it, one character more or less, a
+    # name of the other family. (ASCII case is free: `strings.ToLower`, modelled and compared in the differential part.)
+    hashes, bases = ["sha1", "sha256", "sha512", "md5"], ["base64", "base32", "hex"]
+    def near(n):
+        out = {n + " ", " " + n, n + "\x00", n[:-1], n + "0", n + n, "\uff53" + n[1:] if n[0] == "s" else "\uff42" + n[1:],
+               n.replace("s", "\u017f"), n.upper().replace("S", "\u017f"), n.replace("s", "\u017f", 1).upper().replace("\u017f".upper(), "\u017f"),
+               n.replace("a", "\u0430"), n.replace("e", "\u0435"), n.replace("x", "\u00d7"), n.replace("-", ""), n[0] + "-" + n[1:],
+               n.replace("1", "l"), n.replace("0", "O")}
+        return sorted(x for x in out if x.lower() != n)
+    probes = []
+    for n in hashes:
+        for v in near(n) + bases:
+            probes.append(("HASH", v, "SELECT HASH('x', %s) AS v FROM dual" % sql_str(v)))
+    for n in bases:
+        for v in near(n) + hashes:
+            probes.append(("ENCODE", v, "SELECT ENCODE('x', %s) AS v FROM dual" % sql_str(v)))
+            probes.append(("DECODE", v, "SELECT DECODE('00', %s) AS v FROM dual" % sql_str(v)))
+    outs = run_go([{"op": "query", "doc": {}, "sql": sql} for _, _, sql in probes])
+    chk.cov["near_miss_names"] = len(probes)
+    for (f, v, sql), o in zip(probes, outs):
+        chk.count("near-miss-name:" + str(o.get("r")))
+        if o.get("r") != "error":
+            chk.add_violation("unknown-name-not-an-error", {"function": f, "name": v, "sql": sql, "impl": o})
+            return
 
 
 def explore(chk, rnd, tier):
